@@ -122,6 +122,15 @@ Theorem C03_runner_is_model :
 Proof. exact find_roots_run_eq. Qed.
 Print Assumptions C03_runner_is_model.
 
+(* likewise the filters: the runner executes them with the keep closures and fetch guards
+   re-read from FilterAnnotation / FilterArtifactType *)
+Theorem C03_runner_filters_are_model :
+  forall (s : source) (fs : list filter) (x : nat),
+    find_preds_g s fs x = find_preds s fs x /\
+    forall custom, find_preds_custom_g s custom fs x = find_preds_custom s custom fs x.
+Proof. exact (fun s fs x => conj (find_preds_g_eq s fs x) (fun c => find_preds_custom_g_eq s c fs x)). Qed.
+Print Assumptions C03_runner_filters_are_model.
+
 (* Failing source operations (Predecessors / Referrers / the Fetch of a missing field), any
    position k of the armed fault: when findRoots nevertheless succeeds, its result is the
    fault-free one -- no error is swallowed into a partial predecessor list or root set; so
